@@ -4,7 +4,7 @@ from __future__ import annotations
 import ast
 import itertools
 
-from .. import astu, filteralg as fa, patterns
+from .. import astu, evid, filteralg as fa, patterns
 from ..cfg import cfg_of
 from ..model import AnalysisError
 from ..report import key_of
@@ -69,7 +69,7 @@ def check_in_filter(R, repo):
     except fa.Unsupported as e:
       raise AnalysisError('in_filter left the analysable fragment: %s' % e)
     ok, cex = fa.equivalent(got, fa.member(s))
-    R.check(ok, key, F, 'in_filter(%s, col) is not membership of col in the filter (e.g. substring instead of equality, or a wrong '
+    R.check(ok, key, F, evidence=True, msg_fail='in_filter(%s, col) is not membership of col in the filter (e.g. substring instead of equality, or a wrong '
             'negation); counterexample %s' % (fa.show(s), cex))
 
 
@@ -90,7 +90,7 @@ def r2(R, repo):
       raise AnalysisError('is_filter_empty left the analysable fragment: %s' % e)
     want = fa.spec_empty(s)
     ok, cex = fa.equivalent(got, want)
-    R.check(ok, key, E, 'is_filter_empty(%s) disagrees with "no collection name can match": reported %s, but the filter is %s%s' % (
+    R.check(ok, key, E, evidence=True, msg_fail='is_filter_empty(%s) disagrees with "no collection name can match": reported %s, but the filter is %s%s' % (
         fa.show(s), got, 'empty' if want is True else ('not empty' if want is False else 'empty iff the collection is empty'),
         (' (assignment %s)' % cex) if cex else ''))
   S = mod.func('filter_to_set')
@@ -103,9 +103,9 @@ def r2(R, repo):
         R.fail(key, S, 'filter_to_set accepts the infinite filter %s' % fa.show(s))
         continue
       ok, cex = fa.equivalent(fa.result_membership(res), fa.member(s))
-      R.check(ok and res[0] == 'SET', key, S, 'filter_to_set(%s) is not the set of names the filter matches' % fa.show(s))
+      R.check(ok and res[0] == 'SET', key, S, 'filter_to_set(%s) is not the set of names the filter matches' % fa.show(s), evidence=True)
     except fa.Obligation as e:
-      R.check(not finite, key, S, 'filter_to_set rejects the finite filter %s: %s' % (fa.show(s), e))
+      R.check(not finite, key, S, 'filter_to_set rejects the finite filter %s: %s' % (fa.show(s), e), evidence=True)
     except fa.Unsupported as e:
       raise AnalysisError('filter_to_set left the analysable fragment: %s' % e)
 
@@ -123,7 +123,7 @@ def r3(R, repo):
   c = cfg_of(f)
   ts = [n for n in c.nodes if n.kind == 'if' and astu.isinstance_test(n.ast)]
   order = [astu.isinstance_test(n.ast)[1][0].split('.')[-1] for n in ts]
-  R.check('str' in order and 'Collection' in order and order.index('str') < order.index('Collection'), key_of(f, 'str before Collection'), f,
+  R.judge('str' in order and 'Collection' in order, 'str' in order and 'Collection' in order and order.index('str') < order.index('Collection'), key_of(f, 'str before Collection'), f,
           'in_filter must test str before typing.Collection (a str is a Collection: the other order is a substring match)')
 
 
@@ -142,7 +142,7 @@ def r4(R, repo):
   filt = outer.target.id
   tests = [n for n in c.nodes if n.kind == 'if' and isinstance(n.ast, ast.Call) and astu.call_name(n.ast) == 'in_filter']
   ok = len(tests) == 1 and [astu.src(a) for a in tests[0].ast.args] == [filt, col]
-  R.check(ok, key_of(f, 'in_filter(col_filter, col) decides'), (f, inner), 'the group test must be in_filter(<this filter>, <this collection>)')
+  R.judge(len(tests) == 1 and len(tests[0].ast.args) == 2, ok, key_of(f, 'in_filter(col_filter, col) decides'), (f, inner), 'the group test must be in_filter(<this filter>, <this collection>)')
   if ok:
     t = tests[0]
     stores = [n for n in c.nodes if isinstance(n.stmt, ast.Assign) and isinstance(n.stmt.targets[0], ast.Subscript)
@@ -155,7 +155,7 @@ def r4(R, repo):
     firsts = [m for m, lab in c.succ[head] if lab == 'T']
     ev = stores + apps
     ok2 = ok2 and all(s in ev or head not in c.reach([s], avoid=ev) for s in firsts)
-    R.check(ok2, key_of(f, 'store into group XOR append to remaining'), (f, inner),
+    R.judge(len(stores) >= 1 and len(apps) >= 1, ok2, key_of(f, 'store into group XOR append to remaining'), (f, inner),
             'per collection exactly one of `group[col] = …` (filter matches) / `remaining.append(col)` (does not) must happen')
     # cols is rebound to the remainder; a fresh group/remaining per filter; one group appended per filter
     rem = apps[0].stmt.value.func.value.id if apps else None
@@ -166,12 +166,15 @@ def r4(R, repo):
     gapp = [st for st in outer.body if isinstance(st, ast.Expr) and isinstance(st.value, ast.Call) and astu.call_tail(st.value) == 'append'
             and astu.src(st.value.args[0]) == grp]
     ok3 = len(rebinds) == 1 and outer.body.index(rebinds[0]) > outer.body.index(inner) and len(fresh) == 2 and len(gapp) == 1
-    R.check(ok3, key_of(f, 'remaining collections carried to the next filter; one fresh group per filter'), (f, outer),
+    rb_any = [st for st in outer.body if isinstance(st, ast.Assign) and astu.src(st.targets[0]) == astu.src(inner.iter)]
+    R.judge(bool(rem) and bool(grp) and (len(rebinds) == 1 or not rb_any) and len(fresh) == 2 and len(gapp) == 1, ok3, key_of(f, 'remaining collections carried to the next filter; one fresh group per filter'), (f, outer),
             'after each filter the candidate collections must be rebound to the unmatched remainder, with a fresh group and remainder per filter')
     # the stored value is a copy of the collection (shared with C01: lifted transforms must not alias the outer dict)
     val = stores[0].stmt.value if stores else None
     okc = isinstance(val, ast.Call) and astu.call_tail(val) in ('tree_map', 'unfreeze', 'dict', 'copy', 'deepcopy')
-    R.check(okc, key_of(f, 'group holds a copy of the collection'), (f, inner), 'group[col] must be a structural copy (tree_map) of xs[col], not xs[col] itself')
+    xs_p = astu.params(f.node)[0]
+    aliased = val is not None and evid.raw3(f, val, xs_p, ('tree_map', 'unfreeze', 'dict', 'copy', 'deepcopy')) == evid.RAW
+    R.judge(okc or aliased, okc, key_of(f, 'group holds a copy of the collection'), (f, inner), 'group[col] must be a structural copy (tree_map) of xs[col], not xs[col] itself')
 
 
 def _alias_members(mod, name):
@@ -232,11 +235,11 @@ def r5(R, repo):
   for a in sorted(alts):
     k = want.get(a)
     R.require(k is not None, 'Filter alias has an alternative this rule does not know: %s' % a)
-    R.check(k in handled, key_of(f, 'alternative %s handled' % a), f, 'to_predicate has no branch for Filter alternative `%s`' % a)
+    R.judge(len(handled) >= 4, k in handled, key_of(f, 'alternative %s handled' % a), f, 'to_predicate has no branch for Filter alternative `%s`' % a)
   # order constraints: type (and str, bool) before callable — classes are callable
   if 'Predicate' in handled:
     for a in ('type',):
-      R.check(a in handled and handled[a] < handled['Predicate'], key_of(f, '%s tested before callable' % a), f,
+      R.judge(a in handled, a in handled and handled[a] < handled['Predicate'], key_of(f, '%s tested before callable' % a), f,
               '`isinstance(filter, %s)` must be tested before `callable(filter)`: a class is callable and would be used as a predicate' % a)
   R.check(bool(final_else) and isinstance(final_else[-1], ast.Raise), key_of(f, 'else raises'), f, 'to_predicate must raise for non-filters')
   # which predicate each branch builds
@@ -251,13 +254,13 @@ def r5(R, repo):
       ok = [astu.src(x) for x in rets[0].value.args] == [filter_param]
     if ok and ctor == 'Any':
       ok = len(rets[0].value.args) == 1 and isinstance(rets[0].value.args[0], ast.Starred) and astu.src(rets[0].value.args[0].value) == filter_param
-    R.check(ok, key_of(f, '%s -> %s' % (a, ctor)), (f, node), 'a %s filter must become %s(...)' % (a, ctor))
+    R.judge(len(rets) == 1 and isinstance(rets[0].value, ast.Call) and astu.call_name(rets[0].value) in set(table.values()) | {'Not', 'All'}, ok, key_of(f, '%s -> %s' % (a, ctor)), (f, node), 'a %s filter must become %s(...)' % (a, ctor))
   if 'bool' in handled:
     node = chain[handled['bool']]
     inner = [s for s in node.body if isinstance(s, ast.If)]
     ok = len(inner) == 1 and astu.src(inner[0].test) == filter_param and \
         astu.src(inner[0].body[0]) == 'return Everything()' and astu.src(inner[0].orelse[0]) == 'return Nothing()'
-    R.check(ok, key_of(f, 'bool -> Everything/Nothing'), (f, node), 'True must become Everything() and False Nothing()')
+    R.judge(len(inner) == 1 and astu.src(inner[0].test) == filter_param and len(inner[0].body) == 1 and len(inner[0].orelse) == 1 and isinstance(inner[0].body[0], ast.Return), ok, key_of(f, 'bool -> Everything/Nothing'), (f, node), 'True must become Everything() and False Nothing()')
   if 'Predicate' in handled:
     node = chain[handled['Predicate']]
     R.check(astu.src(node.body[0]) == 'return %s' % filter_param, key_of(f, 'callable passes through'), (f, node),
@@ -284,7 +287,11 @@ def r6(R, repo):
       ok = len(g.generators) == 1 and not g.generators[0].ifs and astu.src(g.generators[0].iter) == 'self.predicates' and \
           isinstance(g.elt, ast.Call) and astu.src(g.elt.func) == astu.src(g.generators[0].target) and \
           [astu.src(a) for a in g.elt.args] == ps[1:3]
-    R.check(ok, key_of(f, '%s over all sub-predicates on (path, x)' % red), f, '%s.__call__ must be %s(p(path, x) for p in self.predicates)' % (cls, red))
+    if isinstance(e, ast.Call) and len(e.args) == 1 and isinstance(e.args[0], ast.GeneratorExp) and len(e.args[0].generators) == 1:
+      pv = astu.src(e.args[0].generators[0].target)
+      evid.judge_expr(R, f, e, '%s((%s(%s, %s) for %s in self.predicates))' % (red, pv, ps[1], ps[2], pv), key_of(f, '%s over all sub-predicates on (path, x)' % red), f, '%s.__call__ must be %s(p(path, x) for p in self.predicates)' % (cls, red), follow=False, vocab=('any', 'all', ps[1], ps[2]))
+    else:
+      R.unsure(key_of(f, '%s over all sub-predicates on (path, x)' % red), f, '%s.__call__ is not a single reduction over a generator' % cls)
     init = mod.func(cls + '.__init__')
     calls = [c for c in astu.func_calls(init) if astu.call_name(c) == 'to_predicate']
     st = [n for n in astu.body_walk(init.node) if isinstance(n, ast.Attribute) and isinstance(n.ctx, ast.Store) and n.attr == 'predicates']
@@ -296,18 +303,18 @@ def r6(R, repo):
   ps = astu.params(f.node)
   ok = isinstance(e, ast.UnaryOp) and isinstance(e.op, ast.Not) and isinstance(e.operand, ast.Call) and \
       astu.src(e.operand.func) == 'self.predicate' and [astu.src(a) for a in e.operand.args] == ps[1:3]
-  R.check(ok, key_of(f, 'negation'), f, 'Not.__call__ must be `not self.predicate(path, x)`')
+  evid.judge_expr(R, f, e, 'not self.predicate(%s, %s)' % (ps[1], ps[2]), key_of(f, 'negation'), f, 'Not.__call__ must be `not self.predicate(path, x)`', follow=False)
   for cls, val in (('Everything', True), ('Nothing', False)):
     f, e = _ret_expr(mod, cls + '.__call__')
-    R.check(astu.is_const(e, val), key_of(f, 'constant %s' % val), f, '%s.__call__ must return %s' % (cls, val))
+    R.check(astu.is_const(e, val), key_of(f, 'constant %s' % val), f, '%s.__call__ must return %s' % (cls, val), evidence=isinstance(e, ast.Constant))
   f, e = _ret_expr(mod, 'WithTag.__call__')
   x = astu.params(f.node)[2]
   ok = isinstance(e, ast.BoolOp) and isinstance(e.op, ast.And) and astu.src(e.values[-1]) in ('%s.tag == self.tag' % x, 'self.tag == %s.tag' % x)
   R.check(ok, key_of(f, 'tag equality'), f, 'WithTag must test x.tag == self.tag (guarded by the has-tag test)')
   f, e = _ret_expr(mod, 'PathContains.__call__')
-  R.check(astu.src(e) == 'self.key in %s' % astu.params(f.node)[1], key_of(f, 'key in path'), f, 'PathContains must test `self.key in path`')
+  evid.judge_expr(R, f, e, 'self.key in %s' % astu.params(f.node)[1], key_of(f, 'key in path'), f, 'PathContains must test `self.key in path`', follow=False)
   f, e = _ret_expr(mod, 'PathIn.__call__')
-  R.check(astu.src(e) == '%s in self.paths' % astu.params(f.node)[1], key_of(f, 'path in paths'), f, 'PathIn must test `path in self.paths`')
+  evid.judge_expr(R, f, e, '%s in self.paths' % astu.params(f.node)[1], key_of(f, 'path in paths'), f, 'PathIn must test `path in self.paths`', follow=False)
   f, e = _ret_expr(mod, 'OfType.__call__')
   x = astu.params(f.node)[2]
   ok = isinstance(e, ast.BoolOp) and isinstance(e.op, ast.Or) and astu.src(e.values[0]) == 'isinstance(%s, self.type)' % x and \
